@@ -401,6 +401,9 @@ def render_eq(eq, mode, lay=None):
     return f'{lhs}{lay.ws(" ")}={lay.ws(" ")}{rhs}'
 
 
+BLOCK_COMMENTS = {'on': True}     # whether guarded verbatim blocks carry trailing Python comments (toggled by layout variants)
+
+
 def render_block(block, mode):
     if mode == 'ref':
         return '\n'.join(render_eq(e, 'ref') for e in block.eqs)
@@ -409,9 +412,10 @@ def render_block(block, mode):
     if g:
         lines = body.split('\n')
         tails = ['  # note', '', ' # x = 1', '\t# last']
-        body = ('if True:  # always\n' if g % 2 else 'if 1 > 0:\n') + '\n'.join('    ' + ln + tails[(g + i) % len(tails)] for i, ln in enumerate(lines))
+        cm = BLOCK_COMMENTS['on'] and mode == 'script'
+        body = ('if True:' + ('  # always' if cm else '') + '\n' if g % 2 else 'if 1 > 0:\n') + '\n'.join('    ' + ln + (tails[(g + i) % len(tails)] if cm else '') for i, ln in enumerate(lines))
         if g % 3 == 0:
-            body += '\nelse:\n    pass  # never'
+            body += '\nelse:\n    pass' + ('  # never' if cm else '')
     if mode == 'code':
         return body
     return '```\n' + body + '\n```'
